@@ -332,6 +332,19 @@ func genReq(t *rapid.T) Req {
 	case "TablesList":
 		r.Wire, _ = (&regattapb.ListTablesRequest{}).MarshalVT()
 	}
+	// a KV request on one of the scratch tables the Tables calls of this case create and delete: whether the table exists is known
+	// only at run time - NotFound while it does not (also right after it was deleted), served while it does
+	if len(defects) == 0 && !hostile && r.Target == "leader" && (method == "Range" || method == "Put") && rapid.IntRange(0, 5).Draw(t, "xtable") == 0 {
+		name := rapid.SampledFrom([]string{"x1", "x2"}).Draw(t, "xname")
+		if method == "Range" {
+			r.Wire, _ = (&regattapb.RangeRequest{Table: []byte(name), Key: []byte("k"), Linearizable: true}).MarshalVT()
+		} else {
+			r.Wire, _ = (&regattapb.PutRequest{Table: []byte(name), Key: []byte("k"), Value: []byte("v")}).MarshalVT()
+		}
+		r.Class = "xtable"
+		r.Defects = []string{name}
+		return r
+	}
 	// arbitrary garbage now and then: must be handled or refused, never crash
 	if inject > 0 && rapid.IntRange(0, 25).Draw(t, "garbage") == 0 {
 		r.Wire = rapid.SliceOfN(rapid.Byte(), 0, 40).Draw(t, "bytes")
@@ -677,6 +690,20 @@ reqs:
 					break reqs
 				}
 				return f
+			}
+		case "xtable":
+			name := r.Defects[0]
+			if xtables[name] {
+				// the table was created by an accepted call of this case; it is served once its shard has started - NotFound is not an answer
+				if code == codes.NotFound {
+					return vt.Failf(prop+"/valid-request-refused", i, "%s on table %q, which an accepted Tables.Create of this case created and nothing deleted: NotFound", r.Method, name)
+				}
+				o.Label("request-on-a-table-created-in-this-case")
+			} else {
+				if code != codes.NotFound {
+					return vt.Failf(prop+"/invalid-request-accepted:unknown-table", i, "%s on table %q, which does not exist (never created in this case, or deleted by an accepted Tables.Delete): status %s (%v), documented NotFound", r.Method, name, code, err)
+				}
+				o.Label("request-on-a-table-deleted-or-never-created-in-this-case")
 			}
 		case "hostile":
 			// handled or refused; the state is re-read
